@@ -2552,6 +2552,11 @@ def _tensordot_via_fused(a, b, left_axes, axes_a, axes_b, right_axes):
             blocks={},
         )
 
+    # only legs actually fused here are unfused again afterwards, any free leg
+    # that already carries subindex information from before must stay fused
+    unfuse_left = len(left_axes) > 1
+    unfuse_right = len(right_axes) > 1
+
     # fuse into matrices or maybe vectors
     af = AbelianArray.fuse(a, left_axes, axes_a, expand_empty=False)
     bf = AbelianArray.fuse(b, axes_b, right_axes, expand_empty=False)
@@ -2575,9 +2580,10 @@ def _tensordot_via_fused(a, b, left_axes, axes_a, axes_b, right_axes):
     cf = _tensordot_blockwise(af, bf, left_axes, axes_a, axes_b, right_axes)
 
     # unfuse result into (*left_axes, *right_axes)
-    for ax in reversed(range(cf.ndim)):
-        if cf.indices[ax].subinfo is not None:
-            AbelianArray.unfuse(cf, ax, inplace=True)
+    if unfuse_right:
+        AbelianArray.unfuse(cf, cf.ndim - 1, inplace=True)
+    if unfuse_left:
+        AbelianArray.unfuse(cf, 0, inplace=True)
 
     return cf
 
